@@ -782,9 +782,11 @@ package gorums
 //@   ghost pnPend Bool = false
 //@   ghost nwait Int = 0
 //@   ghost sent0 Int = 0
+//@   ghost gaveUp Bool = false
+//@   ghost nsent Int = 0
 //@   loop "for _, n := range c"
 //@     invariant[C06.d] pnPend ==> !validMsg(pnMsg)
-//@     invariant[C06.c] 0 <= sentMsgs && sentMsgs <= idx && md != nil && ctx == old(ctx) && nwait == 0
+//@     invariant[C06.c] 0 <= sentMsgs && sentMsgs <= idx && md != nil && ctx == old(ctx) && nwait == 0 && nsent == sentMsgs && !gaveUp
 //@     invariant !o.noSendWaiting ==> replyChan != nil && !closed(replyChan) && cap(replyChan) == len(c) && ChCredit[replyChan] == len(c) - sentMsgs
 //@     invariant o.noSendWaiting ==> replyChan == nil
 //@   on call "d.PerNodeArgFn"
@@ -799,14 +801,18 @@ package gorums
 //@     set pnPend = false
 //@     assert[C06.a] recv == c[idx-1].channel && arg0.ctx == old(ctx) && arg0.msg.Metadata == md && md.Method == old(d.Method)
 //@     assert[C06.e] arg0.opts == o && arg1 == replyChan && arg2 == false
+//@     after set nsent = nsent + 1
 //@   loop "for ; sentMsgs > 0; sentMsgs--"
 //@     enter set sent0 = sentMsgs
-//@     invariant[C06.c] 0 <= sentMsgs && nwait + sentMsgs == sent0 && !o.noSendWaiting
+//@     invariant[C06.c] 0 <= sentMsgs && nwait + sentMsgs == sent0 && !o.noSendWaiting && sent0 == nsent && !gaveUp
 //@     decreases sentMsgs
 //@   on recv "replyChan"
 //@     assert[C06.f] !o.noSendWaiting
 //@     set nwait = nwait + 1
+//@   on recv "ctx.Done()"
+//@     set gaveUp = true
 //@   ensures[C06.f] o.noSendWaiting ==> nwait == 0
+//@   ensures[C06.c] !o.noSendWaiting && !gaveUp ==> nwait == nsent
 //@   blocks until ctx
 //@   opt effect-tags=C08.a
 
